@@ -132,3 +132,95 @@ def relanguage(data: bytes, lang: str) -> bytes:
     out = bytearray(data)
     struct.pack_into('>H', out, off, packed)
     return bytes(out)
+
+
+def global_sidx(data: bytes, nrefs: int = 4) -> bytes:
+    """The same media in the single-file layout ftyp / moov / sidx (one reference per fragment) / moof / mdat / moof / mdat ...:
+    the per-segment styp and sidx boxes are dropped, one version-0 sidx with `nrefs` references (the first `nrefs` fragments;
+    the file is cut after them) is inserted after moov.  Durations are taken from the per-segment sidx boxes."""
+    p = Parsed(data)
+    moov = next(b for b in p.top if b.name == 'moov')
+    frags = []
+    dur_of: list[int] = []
+    pend_dur = None
+    for b in p.top:
+        if b.pos < moov.end:
+            continue
+        if b.name == 'sidx':
+            body = b.pos + b.hdr
+            ver = data[body]
+            refs = body + 4 + 8 + (8 if ver == 0 else 16) + 4
+            pend_dur = struct.unpack_from('>I', data, refs + 4)[0]
+        elif b.name == 'moof':
+            frags.append([b, None])
+            dur_of.append(pend_dur or 0)
+            pend_dur = None
+        elif b.name == 'mdat' and frags and frags[-1][1] is None:
+            frags[-1][1] = b
+    frags = [f for f in frags if f[1] is not None][:nrefs]
+    if len(frags) < 2:
+        raise ValueError('need at least two fragments')
+    first_sidx = next((b for b in p.top if b.name == 'sidx'), None)
+    ts = first_sidx.f['timescale'] if first_sidx is not None else 1
+    body = struct.pack('>IIIIHH', 1, ts, 0, 0, 0, len(frags))        # version/flags = 0 is packed below
+    recs = b''
+    for (moof, mdat), dur in zip(frags, dur_of):
+        recs += struct.pack('>III', (moof.size + mdat.size) & 0x7FFFFFFF, dur, 0x90000000)
+    payload = struct.pack('>I', 0) + body + recs
+    sidx = struct.pack('>I4s', 8 + len(payload), b'sidx') + payload
+    out = data[:moov.end] + sidx + b''.join(data[m.pos:d.end] for m, d in frags)
+    if not Parsed(out).well_formed():
+        raise ValueError('global sidx produced a malformed file')
+    return out
+
+
+def append_short_fragment(data: bytes, keep: int) -> bytes:
+    """The same media followed by one more, shorter fragment: a copy of the first fragment cut down to its first `keep` samples,
+    placed at the end of the track (decode time = end of the last fragment, next sequence number).  Gives a track whose duration
+    is not a multiple of its segment duration (and, for suitable `keep`, not a whole number of seconds)."""
+    p = Parsed(data)
+    moofs = [b for b in p.top if b.name == 'moof']
+    mdats = [b for b in p.top if b.name == 'mdat']
+    if not moofs or len(moofs) != len(mdats) or mdats[0].pos != moofs[0].end or mdats[0].hdr != 8:
+        raise ValueError('unsupported layout')
+    moof, mdat = moofs[0], mdats[0]
+    traf = moof.find('traf')
+    trun, tfdt, mfhd, tfhd = traf.find('trun'), traf.find('tfdt'), moof.find('mfhd'), traf.find('tfhd')
+    fl, n = trun.f['flags'], trun.f['sample_count']
+    if not (fl & 0x200) or keep < 1 or keep >= n or tfdt is None or any(c.name in ('saiz', 'saio', 'senc') for c in traf.children):
+        raise ValueError('unsupported fragment')
+    first = trun.pos + trun.hdr + 8 + (4 if fl & 0x001 else 0) + (4 if fl & 0x004 else 0)
+    per = (4 if fl & 0x100 else 0) + 4 + (4 if fl & 0x400 else 0) + (4 if fl & 0x800 else 0)
+    cut_a, cut_b = first + keep * per, trun.end
+    removed = cut_b - cut_a
+    # durations of all fragments -> decode time of the new one
+    last_moof = moofs[-1]
+    lt = last_moof.find('traf', 'tfdt').f['base_media_decode_time']
+    ltrun = last_moof.find('traf', 'trun')
+    ltfhd = last_moof.find('traf', 'tfhd')
+    dflt = ltfhd.f.get('default_sample_duration')
+    if dflt is None:
+        trex = p.find('moov', 'mvex', 'trex')
+        dflt = trex.f.get('default_sample_duration', 0) if trex else 0
+    ldur = sum(d if d is not None else dflt for d in ltrun.f['durations'])
+    new_time = lt + ldur
+    m = bytearray(data[moof.pos:moof.end])
+    rel = lambda b: b.pos - moof.pos      # noqa: E731
+    del m[cut_a - moof.pos:cut_b - moof.pos]
+    for b in (moof, traf, trun):
+        struct.pack_into('>I', m, rel(b), b.size - removed)
+    struct.pack_into('>I', m, rel(trun) + trun.hdr + 4, keep)
+    if fl & 0x001:
+        struct.pack_into('>i', m, rel(trun) + trun.hdr + 8, moof.size - removed + 8)
+    body = rel(tfdt) + tfdt.hdr
+    if m[body] == 1:
+        struct.pack_into('>Q', m, body + 4, new_time)
+    else:
+        struct.pack_into('>I', m, body + 4, new_time)
+    struct.pack_into('>I', m, rel(mfhd) + mfhd.hdr + 4, last_moof.find('mfhd').f['sequence_number'] + 1)
+    payload_len = sum(trun.f['sizes'][:keep])
+    newmdat = struct.pack('>I4s', 8 + payload_len, b'mdat') + data[mdat.pos + 8:mdat.pos + 8 + payload_len]
+    out = data + bytes(m) + newmdat
+    if not Parsed(out).well_formed():
+        raise ValueError('short fragment produced a malformed file')
+    return out
